@@ -210,7 +210,11 @@ def run(ctx):
                 if not cuts:
                     continue
                 cuts = np.asarray(cuts)
-                ref = scores_canon(mk().fit(represent(vals, *ref_rep)).evaluate(cuts))
+                try:
+                    ref = scores_canon(mk().fit(represent(vals, *ref_rep)).evaluate(cuts))
+                except RuntimeError:
+                    ctx.count("scorer_reference_raised_documented_error", name)      # e.g. a singular sample covariance on the event-free data set
+                    continue
                 ctx.case({"obj": name, "p": p, "rep": rep_i, "cuts": cuts.tolist()}, nontrivial=True)
                 for rp in variants(p):
                     if rp == ref_rep:
